@@ -161,6 +161,24 @@ def run_poll(world, rows, profile, client=None, role="primary", shared_args=None
             rec.extra["feed_frame_reused_in_place"] = True
         else:
             shared_args["feed"] = cur
+    arr = p.get("arrival")
+    if arr and shared_args is None:
+        # how the data arrives: same content, other container details (row order, index labels, column order, an extra column)
+        g = np.random.default_rng(int(arr["seed"]))
+        if arr.get("feed_index") and len(cur):
+            cur = cur.iloc[g.permutation(len(cur))]
+            cur.index = (np.zeros(len(cur), dtype=int) if arr["feed_index"] == "all_equal" else
+                         np.arange(len(cur)) % 3 if arr["feed_index"] == "repeating" else np.arange(len(cur))[::-1] * 7 + 5)
+        if arr.get("feed_extra_col"):
+            cur = cur.assign(source_tag=[f"s{i % 4}" for i in range(len(cur))])
+        if arr.get("feed_cols"):
+            cur = cur[[cur.columns[int(i)] for i in g.permutation(len(cur.columns))]]
+        if arr.get("base_index"):
+            pre = pre.iloc[g.permutation(len(pre))]
+            pre.index = (np.arange(len(pre)) % 2 if arr["base_index"] == "repeating" else np.arange(len(pre))[::-1] * 3 + 11)
+        if arr.get("base_cols"):
+            pre = pre[[pre.columns[int(i)] for i in g.permutation(len(pre.columns))]]
+        rec.extra["arrival"] = {k_: v_ for k_, v_ in arr.items() if v_}
     if p.get("feed_as_lists"):
         # the documented other form of the feed argument: a list of lists whose first element names the columns
         cur = [list(cur.columns)] + [list(r) for r in cur.itertuples(index=False, name=None)]
